@@ -228,8 +228,8 @@ def run(ctx):
     # ------------------------------------------------------------------ TLC
     runs = []
     if quick:
-        runs.append(("1 data set", dict(max_data=3, max_bg=1, max_mc=2, w="WTiny", emit_max=5000), True))
-        runs.append(("2 data sets", dict(max_data=2, max_bg=0, max_mc=1, ngroups=2, w="WTiny", v="VTiny", constr="OneConstr", emit_max=5000), False))
+        runs.append(("1 data set", dict(max_data=3, max_bg=1, max_mc=2, emit_max=20000), False))
+        runs.append(("2 data sets", dict(max_data=2, max_bg=0, max_mc=1, ngroups=2, w="WTiny", v="VTiny", constr="OneConstr", emit_max=5000), True))
     else:
         runs.append(("1 data set", dict(max_data=3, max_bg=2, max_mc=2, w="WFull", v="VFull", bkg="BkgFull", phi="PhiFull"), False))
         runs.append(("1 data set, 3 MC events", dict(max_data=2, max_bg=1, max_mc=3, v="VFull", gm=(1, 2, 3), scales=(1, 2), constr="OneConstr"), False))
@@ -318,7 +318,7 @@ def replay_all(ctx, fac, emitted, rng, quick, variants):
         by_stratum.setdefault(key, []).append(c)
     strata = sorted(by_stratum)
     per = 1 if quick else 6
-    budget = 30 if quick else 170
+    budget = 26 if quick else 170
 
     def size(c):
         return sum(len(g["dw"]) + g["nb"] + len(g["mv"]) for g in c["core"]["groups"])
